@@ -7,9 +7,10 @@
    x tag variant tv (0 = no added tags; otherwise rotating tag variants of Doc!Var on
      every line, two tags on even positions), which also fixes the line order
      (ascending = definitions first, descending = every reference is a forward one)
-   x configuration set: for one variant per document the full product
-     vlevel 0..3 x version explicit/auto x 6 entry points; for the others the four
-     validation levels with rotating version/entry point.
+   x configuration set: for one variant per document (of every FULLMOD-th document;
+     FULLMOD = 1 in the thorough tier) the full product vlevel 0..3 x version
+     explicit/auto x 6 entry points; for the others the four validation levels with
+     rotating version/entry point.
 
    Each state is one (ver, doc, tv); it is printed as a flat tuple
      <<"CASE", ver(1/2), tv, ord(0 asc/1 desc), full(0/1), n, idx1, a1, two1, ...>>
@@ -19,7 +20,7 @@
    Invariant: every enumerated document satisfies Doc!IsValidDoc.                  *)
 EXTENDS Doc
 
-CONSTANTS KL, KS, TVALL
+CONSTANTS KL, KS, TVALL, FULLMOD
 
 VARIABLES ver, doc, tv
 vars == <<ver, doc, tv>>
@@ -56,7 +57,7 @@ Flat(ix, t, j) == IF j > Len(ix) THEN <<>>
 Emit == LET o == OrdOf(doc, tv)
             ix == Order(doc, o) IN
         PrintT(<<"CASE", VerNum(ver), tv, IF o = "asc" THEN 0 ELSE 1,
-                 IF tv = FullTv(doc) THEN 1 ELSE 0, Len(ix)>> \o Flat(ix, tv, 1))
+                 IF tv = FullTv(doc) /\ SumSet(doc) % FULLMOD = 0 THEN 1 ELSE 0, Len(ix)>> \o Flat(ix, tv, 1))
 
 Added(a, two) == IF a = 0 THEN <<>> ELSE IF two = 1 THEN <<Var[a], Var[(a % NVar) + 1]>> ELSE <<Var[a]>>
 ASSUME \A v \in {"gfa1", "gfa2"} : \A i \in DOMAIN Cat(v) : \A a \in 0..NVar : \A two \in {0, 1} :
